@@ -167,6 +167,31 @@ theorem ___cds_wfcq_dequeue_with_state_refines (fuel : Nat) (priv : Loc → Opti
     (by simp [bindParams, Gen.Src.«___cds_wfcq_dequeue_with_state.params»])
     (by simp [bindParams, Gen.Src.«___cds_wfcq_dequeue_with_state.params»]) hsv hq ht hcfg hwt
 
+/-- **`___cds_wfcq_splice(dest_head, dest_tail, src_head, src_tail, blocking)`** from L2's `e1 (.splice dst blocking) src`
+(after `callSplice`), both values of `blocking`, every loop budget: `ld1 (ld2) (s3 (s4))* s5 s6 stIssue`.
+Side conditions: oracle values are NULL or object pointers (`Typed`), and (`hdst`) the value that the `xchg` on the
+*destination tail* inside the final `___cds_wfcq_append` returns – the only oracle value splice dereferences – is a
+non-NULL object pointer (L2 invariant `tail q ≠ 0`); it is identified as the next oracle value when `splicePre` (the
+first 10 statements of the generated body, i.e. everything before that call) completes.
+Result (`SpliceRes`): cut at a splice pc; `CDS_WFCQ_RET_SRC_EMPTY` at `done srcEmpty`; `CDS_WFCQ_RET_WOULDBLOCK` (only if
+`!blocking`) at `done wouldblock`; `CDS_WFCQ_RET_DEST_NON_EMPTY`/`_EMPTY` at `done (dest ne)`. -/
+theorem ___cds_wfcq_splice_refines (fuel : Nat) (priv : Loc → Option Val) (dhk dtk shk stk dst src : Nat) (b mbv : Int)
+    (inp : List Val)
+    (hcfg : priv (.glob "CONFIG_RCU_EMIT_LEGACY_MB") = some (.int mbv))
+    (hd : L.addr dhk = some dst) (htd : L.tailOf dtk = some dst)
+    (hs : L.addr shk = some src) (hts : L.tailOf stk = some src) (hwt : ∀ v ∈ inp, Typed L v)
+    (hdst : ∀ o, exec fuel splicePre ⟨bindParams Gen.Src.«___cds_wfcq_splice.params»
+        [.ptr (.obj dhk), .ptr (.obj dtk), .ptr (.obj shk), .ptr (.obj stk), .int b], priv⟩ inp = .ok o →
+      o.ctl = .normal → ∀ v, o.inp.head? = some v → IsObj L v) :
+    ∃ out, exec fuel Gen.Src.«___cds_wfcq_splice» ⟨bindParams Gen.Src.«___cds_wfcq_splice.params»
+        [.ptr (.obj dhk), .ptr (.obj dtk), .ptr (.obj shk), .ptr (.obj stk), .int b], priv⟩ inp = .ok out ∧
+      ∃ p', lrun (.e1 (.splice dst (decide (b ≠ 0))) src) (out.events.filterMap (absEv L)) = some p' ∧
+        SpliceRes dst src b (decide (b ≠ 0)) out p' :=
+  splice_refines_env L fuel _ dhk dtk shk stk dst src b mbv inp
+    (by simp [bindParams, Gen.Src.«___cds_wfcq_splice.params»]) (by simp [bindParams, Gen.Src.«___cds_wfcq_splice.params»])
+    (by simp [bindParams, Gen.Src.«___cds_wfcq_splice.params»]) (by simp [bindParams, Gen.Src.«___cds_wfcq_splice.params»])
+    (by simp [bindParams, Gen.Src.«___cds_wfcq_splice.params»]) hcfg hd htd hs hts hwt hdst
+
 /-- `___cds_wfcq_busy_wait(&attempt, blocking)`: no shared access at all (its events have no L2 label) -/
 theorem ___cds_wfcq_busy_wait_silent (fuel : Nat) (priv : Loc → Option Val) (al : Loc) (b c : Int) (inp : List Val)
     (hp : priv al = some (.int c)) :
@@ -255,6 +280,35 @@ example : ∃ out, exec 3 Gen.Src.«___cds_wfcq_dequeue_with_state»
 example := ___cds_wfcq_dequeue_with_state_refines L0 3 (priv0 0) 1 11 1 0 0
   [.ptr (.obj 5), .ptr (.obj 5), .int 0, .ptr (.obj 5)] (.ptr (.glob "st"))
   (Or.inr ⟨_, rfl, by simp, by simp, by simp⟩) rfl rfl (by simp [priv0]) (by simp [Typed, dec, L0])
+
+/-- blocking splice of queue 1 (nodes 5 → 6) into the empty queue 2: `ld1`, `s3`, `s5`, `s6`, `stIssue`: 5 events,
+returns `CDS_WFCQ_RET_DEST_EMPTY` -/
+example : ∃ out, exec 3 Gen.Src.«___cds_wfcq_splice»
+      ⟨bindParams Gen.Src.«___cds_wfcq_splice.params»
+        [.ptr (.obj 2), .ptr (.obj 12), .ptr (.obj 1), .ptr (.obj 11), .int 1], priv0 0⟩
+      [.ptr (.obj 5), .ptr (.obj 5), .ptr (.obj 6), .ptr (.obj 2)] = .ok out ∧
+    out.events.filterMap (absEv L0) =
+      [.ldNext 1 5, .xchgNext 1 0 5, .xchgTail 1 1 6, .xchgTail 2 6 2, .stNext 2 5] ∧
+    lrun (.e1 (.splice 2 true) 1) (out.events.filterMap (absEv L0)) = some (.done (.dest false)) ∧
+    out.ctl = .ret (some (.int 0)) := by
+  simp [Gen.Src.«___cds_wfcq_splice», Gen.Src.«___cds_wfcq_splice.params», Gen.Src.«___cds_wfcq_append»,
+    Gen.Src.«_cds_wfcq_empty», Gen.Src.«___cds_wfcq_busy_wait», block, exec, iterate, eval,
+    evalArgs, execPrim, bindParams, Env.setVar, Env.setPriv, setDst, asLoc, bind, Except.bind, evalBin, evalUn, boolV,
+    Val.truthy, absEv, decNext, decTail, dec, L0, List.filterMap_cons, lrun, lstep, priv0, nonEmptyPc]
+
+example := ___cds_wfcq_splice_refines L0 3 (priv0 0) 2 12 1 11 2 1 1 0
+  [.ptr (.obj 5), .ptr (.obj 5), .ptr (.obj 6), .ptr (.obj 2)] (by simp [priv0]) rfl rfl rfl rfl
+  (by simp [Typed, dec, L0])
+  (by
+    intro o ho _ v hv
+    simp [splicePre, initSeq, Gen.Src.«___cds_wfcq_splice», Gen.Src.«___cds_wfcq_splice.params»,
+      Gen.Src.«_cds_wfcq_empty», Gen.Src.«___cds_wfcq_busy_wait», block, exec, iterate, eval,
+      evalArgs, execPrim, bindParams, Env.setVar, Env.setPriv, setDst, asLoc, bind, Except.bind, evalBin, evalUn, boolV,
+      Val.truthy, priv0] at ho
+    subst ho
+    simp at hv
+    subst hv
+    exact ⟨2, 2, rfl, rfl⟩)
 
 end wfcq
 
